@@ -358,6 +358,21 @@ loop:
 	o.lc.ShutdownInitiated(nil)
 	o.sub.Close()
 
+	// A reservation or bid still in flight may yet succeed: collect its result
+	// so that it is released below instead of being leaked.
+	if clusterch != nil {
+		if result := <-clusterch; result.Error() == nil {
+			reservation = result.Value().(ctypes.Reservation)
+		}
+		clusterch = nil
+	}
+	if bidch != nil {
+		if result := <-bidch; result.Error() == nil {
+			o.bidPlaced = true
+		}
+		bidch = nil
+	}
+
 	// cancel reservation
 	if !won {
 		if reservation != nil {
